@@ -289,19 +289,14 @@ def run_all(tier, workdir):
         gstats.append(st)
         scheds += sc
     sfile, tfile = os.path.join(wd, "schedules.ndjson"), os.path.join(wd, "trace.ndjson")
-    with open(sfile, "w") as f:
-        for s in scheds:
-            f.write(json.dumps(s) + "\n")
     tx = time.time()
-    xs = vlib.run_x(["yata-run", "--in", sfile, "--out", tfile, "--seed", str(seed), "--repeat", "1"])
+    xs = vlib.run_x_sched(scheds, sfile, tfile, ["--seed", str(seed), "--repeat", "1"])
     nrand = 0
     for i in range(RANDOM[tier]):
         rs, rt = os.path.join(wd, "rs%d.ndjson" % i), os.path.join(wd, "rt%d.ndjson" % i)
-        vlib.run_x(["yata-random", "--out-sched", rs, "--out", rt, "--seed", str(_h(seed, i, "quote") % (1 << 31)),
-                    "--behaviours", str(max(20, (120 if tier == "quick" else 300) * SCALE // 100)),
-                    "--ops", str(14 if i % 2 == 0 else 36), "--ext", "quote", "--gc-off", "1" if i % 3 == 2 else "0"])
-        with open(rs) as f:
-            rsch = [json.loads(ln) for ln in f if ln.strip()]
+        rsch, _ncr = vlib.run_x_random(rs, rt, ["--seed", str(_h(seed, i, "quote") % (1 << 31)),
+                                              "--ops", str(14 if i % 2 == 0 else 36), "--ext", "quote", "--gc-off", "1" if i % 3 == 2 else "0"],
+                                       max(20, (120 if tier == "quick" else 300) * SCALE // 100))
         nrand += len(rsch)
         scheds += rsch
         with open(sfile, "a") as out, open(rs) as f:
